@@ -1,3 +1,7 @@
--- This module serves as the root of the `Abasic` library.
--- Import modules here that should be built as part of the library.
-import Abasic.Basic
+import Abasic.Extracted
+import Abasic.Num
+import Abasic.Text
+import Abasic.Token
+import Abasic.LineNumber
+import Abasic.Data
+import Abasic.Tokenizer
